@@ -25,8 +25,7 @@ R_LinesOK(sn, rep) ==
     /\ Len(rep.lines) = Cardinality(R_Displayed(sn))
     /\ \A i \in DOMAIN rep.lines :
          rep.lines[i].id \in R_Displayed(sn) =>
-            /\ rep.lines[i].ev = R_Rec(sn, rep.lines[i].id).ev
-            /\ rep.lines[i].cls = R_Rec(sn, rep.lines[i].id).cls
+            rep.lines[i].ev = R_Rec(sn, rep.lines[i].id).ev
 \* the *** marker on exactly the displayed demes whose best fitness equals the global best
 R_MarkerOK(rep) ==
     \A i \in DOMAIN rep.lines :
